@@ -102,21 +102,29 @@ Send(e) ==
   /\ UNCHANGED <<sid, stopk, owed, seen, reported, announced, inj, prom, cnt, viol, aborted, shape, lastinj, foundby, lastreq>>
 
 \* a prompt, projected by the check: [cmd, reports : Seq([sig, tid]), has_cnt, cnt : [sig -> n], failed, detail]
+\* `reported[<<t, s>>]` counts LEGITIMATE reports only: a report is legitimate while a delivery-stop of (t, s) the tracer
+\* has met is still unreported; any further report of a signal the thread holds/owes is a duplicate and changes no count
+\* (so that one duplicate cannot make later, legitimate reports look like duplicates)
 RECURSIVE Reports(_, _, _, _, _)
-Reports(rs, i, rep, ann, acc) ==     \* returns <<reported', announced', viol-suffix, prom-increments>>
+Reports(rs, i, rep, ann, acc) ==     \* returns <<reported', announced', viol-suffix>>
   IF i > Len(rs) THEN <<rep, ann, acc>>
   ELSE LET r == rs[i]  s == r.sig  t == r.tid
            holds == (Kind(t) = "signal" /\ Held(t) = s) \/ Get(owed, <<t, s>>) > 0
            other == \E x \in DOMAIN stopk : x # t /\ stopk[x] = <<"signal", s>>
-           nrep == Get(rep, <<t, s>>) + 1
+           legit == Get(seen, <<t, s>>) > Get(rep, <<t, s>>)
            v == (IF s \in Quiet THEN <<VV("quiet_signal_reported", "prompt", s, "no stop", t, Get2(foundby, <<t, s>>))>> ELSE <<>>)
-                \o (IF s \notin Quiet /\ ~holds
+                \o (IF s \notin Quiet /\ ~holds /\ ~legit
                       THEN <<V(IF other THEN "report_names_wrong_thread" ELSE "spurious_report", "prompt", s, "the receiving thread", t)>> ELSE <<>>)
-                \o (IF s \notin Quiet /\ holds /\ nrep > Get(seen, <<t, s>>)
-                      THEN <<VV("duplicate_report", "prompt", s, Get(seen, <<t, s>>), nrep,
+                \o (IF s \notin Quiet /\ holds /\ ~legit
+                      THEN <<VV("duplicate_report", "prompt", s, Get(seen, <<t, s>>), Get(rep, <<t, s>>) + 1,
                                 IF Kind(t) = "signal" /\ Held(t) = s THEN "same_delivery_stop" ELSE "suppressed_entry")>> ELSE <<>>)
-       IN Reports(rs, i + 1, Put(rep, <<t, s>>, nrep),
-                  IF nrep <= Get(seen, <<t, s>>) THEN Put(ann, <<t, s>>, Get(ann, <<t, s>>) + 1) ELSE ann, acc \o v)
+       IN Reports(rs, i + 1,
+                  IF legit THEN Put(rep, <<t, s>>, Get(rep, <<t, s>>) + 1) ELSE rep,
+                  IF legit /\ s \notin Quiet THEN Put(ann, <<t, s>>, Get(ann, <<t, s>>) + 1) ELSE ann, acc \o v)
+
+RECURSIVE SumOver(_, _)
+SumOver(f, K) == IF K = {} THEN 0 ELSE LET x == CHOOSE y \in K : TRUE IN f[x] + SumOver(f, K \ {x})
+LegitReports(rep, s) == SumOver(rep, {x \in DOMAIN rep : x[2] = s})
 
 CountOf(rs, s) == Cardinality({i \in 1..Len(rs) : rs[i].sig = s})
 
@@ -125,7 +133,7 @@ Prompt(e) ==
       c == IF e.has_cnt THEN e.cnt ELSE cnt
   IN
   /\ reported' = R[1] /\ announced' = R[2]
-  /\ prom' = [s \in SigNames |-> prom[s] + CountOf(e.reports, s)]
+  /\ prom' = [s \in SigNames |-> LegitReports(R[1], s)]      \* legitimate reports so far
   /\ cnt' = c
   /\ shape' = Append(shape, e.cmd)
   /\ aborted' = (aborted \/ e.failed)
